@@ -165,7 +165,7 @@ def unit_block(U):
                     list(p.pc) + hy, z3.And(*noself) if noself else z3.BoolVal(True), vars_, replay=replay)
 
 
-def _finish_run(it, dis_g, dis_t, nrows, same_gene, keep=False, on_execute=None):
+def _finish_run(it, dis_g, dis_t, nrows, same_gene, keep=False, on_execute=None, id_spec=None):
     def run(ctx):
         rows = []
         for i in range(nrows):
@@ -193,7 +193,7 @@ def _finish_run(it, dis_g, dis_t, nrows, same_gene, keep=False, on_execute=None)
             ext[n] = (args, mn, mx, strand, seqid)
             return [ghostdb.GhostRow(["MIN(start)", "MAX(end)", "strand", "seqid"], [mn, mx, strand, seqid])]
         conn = ghostdb.GhostConn(result_for=result_for, on_execute=on_execute(ctx) if on_execute else None)
-        cr = IM.blank_creator(C._GTFDBCreator, conn, id_spec=dict(GTF_SPEC), counters=IM.SymMap("cnt"), disable_infer_genes=dis_g, disable_infer_transcripts=dis_t,
+        cr = IM.blank_creator(C._GTFDBCreator, conn, id_spec=dict(GTF_SPEC) if id_spec is None else id_spec, counters=IM.SymMap("cnt"), disable_infer_genes=dis_g, disable_infer_transcripts=dis_t,
                               _keep_tempfiles=keep)
         ctx.stash.update(rows=rows, ext=ext, state=state, cr=cr)
         it.call(C._GTFDBCreator._update_relations, [cr], {})
